@@ -240,9 +240,15 @@ class CurveMachine(object):
         ci = False
         folded = [k.upper() if las.curves.mnemonic_transforms else k for k in names]
         if len(set(folded)) != len(folded):
-            # session names are not pairwise distinct (C13's business, known finding F-C13-1): mnemonic indexing is
-            # ambiguous in such a state and is not judged here
-            self.res.count("mnemonic-view-skipped-ambiguous-names")
+            # session names are not pairwise distinct: mnemonic indexing is ambiguous.  With names that look like generated
+            # suffixes (X:<k>) this is known finding F-C13-1 (C13's business) and is not judged here; otherwise it is a
+            # violation: some curve cannot be addressed by its own mnemonic
+            import re as _re
+            if getattr(self, "hazard_names", True) or any(_re.match(r"^.*:\d+$", m["orig"]) for m in self.L):
+                self.res.count("mnemonic-view-skipped-ambiguous-names")
+            else:
+                dup = [k for k in names if folded.count(k.upper() if las.curves.mnemonic_transforms else k) > 1]
+                self.fail("C14.views", "curve mnemonics %r do not address distinct curves (keys() = %r)" % (sorted(set(dup)), names))
             names_to_probe = []
         else:
             names_to_probe = names
